@@ -117,6 +117,29 @@ class Opaque:
     __hash__ = None
 
 
+class _EagerGen:
+    """the items a folded generator function produced, handed out one by one; an exception the generator ran into is raised when the
+    items before it have been consumed (as the real generator would)"""
+
+    def __init__(self, items, pending=None):
+        self.items, self.pos, self.pending = list(items), 0, pending
+
+    def __iter__(self):
+        return self
+
+    def __next__(self):
+        if self.pos < len(self.items):
+            self.pos += 1
+            return self.items[self.pos - 1]
+        if self.pending is not None:
+            p_, self.pending = self.pending, None
+            raise p_
+        raise StopIteration
+
+    def __repr__(self):
+        return "<generator %r>" % (self.items[self.pos:],)
+
+
 def _is_generator(d):
     """does the function definition itself (not a nested definition) contain a yield"""
     stack = list(d.body)
@@ -206,16 +229,21 @@ class Folder:
         saved_y = self.yields
         if is_gen:
             self.yields = []
+        pending = None
         try:
             self.run(d.body)
             ret = None
         except _Return as r:
             ret = r.value
+        except Raised as r:
+            if not is_gen:
+                raise
+            pending = r                     # a generator raises where its items run out, not where it is created
         finally:
             self.env = saved
             if is_gen:
                 ret_y, self.yields = self.yields, saved_y
-        return ret_y if is_gen else ret
+        return _EagerGen(ret_y, pending) if is_gen else ret
 
     def _closure(self, d):
         """a local function used as a value: called later (possibly from another folded function) it sees the bindings of the frame that
@@ -486,6 +514,13 @@ class Folder:
                     return any((c_._isinstance(args[0]) if hasattr(c_, "_isinstance") else isinstance(args[0], c_)) for c_ in cands)
                 if not all(isinstance(c_, type) for c_ in cands):
                     raise Unknown("isinstance against a repository class")
+            if fn == "next" and args and isinstance(args[0], _EagerGen):
+                try:
+                    return next(args[0])
+                except StopIteration:
+                    if len(args) > 1:
+                        return args[1]
+                    raise Raised("StopIteration")
             if fn == "next" and args and isinstance(args[0], (list, tuple)):
                 if args[0]:
                     return args[0][0]               # (generators are folded into lists: the first element)
